@@ -238,9 +238,9 @@ func (rt *runtime) cmplEvaluateNodeConditionalExpression(node *nodeConditionalEx
 	test := rt.cmplEvaluateNodeExpression(node.test)
 	testValue := test.resolve()
 	if testValue.bool() {
-		return rt.cmplEvaluateNodeExpression(node.consequent)
+		return rt.cmplEvaluateNodeExpression(node.consequent).resolve()
 	}
-	return rt.cmplEvaluateNodeExpression(node.alternate)
+	return rt.cmplEvaluateNodeExpression(node.alternate).resolve()
 }
 
 func (rt *runtime) cmplEvaluateNodeDotExpression(node *nodeDotExpression) Value {
